@@ -277,7 +277,47 @@ func closureLabels(parent *ssa.Function) map[*ssa.Function][]string {
 			}
 		}
 	}
-	// functions used directly (no MakeClosure because no free variables)
+	// functions used directly (no MakeClosure because no free variables): the same
+	// labels as a closure in that position would get, so that a literal that stops (or
+	// starts) capturing a variable keeps its name
+	var labelDirect func(v ssa.Value, r ssa.Instruction, depth int) string
+	labelDirect = func(v ssa.Value, r ssa.Instruction, depth int) string {
+		switch r := r.(type) {
+		case *ssa.Return:
+			return "return"
+		case *ssa.Store:
+			if r.Val == v {
+				switch a := r.Addr.(type) {
+				case *ssa.Alloc:
+					if a.Comment == "" {
+						return "return"
+					}
+					return a.Comment
+				case *ssa.FieldAddr:
+					st := derefType(a.X.Type()).Underlying().(*types.Struct)
+					return "field:" + st.Field(a.Field).Name()
+				}
+			}
+		case *ssa.Go:
+			return "go"
+		case *ssa.Defer:
+			return "defer"
+		case *ssa.Call:
+			return "arg"
+		case *ssa.ChangeType:
+			if depth < 3 && r.Referrers() != nil {
+				for _, rr := range *r.Referrers() {
+					if l := labelDirect(r, rr, depth+1); l != "" {
+						return l
+					}
+				}
+			}
+			return "conv"
+		case *ssa.MakeInterface:
+			return "iface"
+		}
+		return ""
+	}
 	for _, af := range parent.AnonFuncs {
 		if len(out[af]) > 0 {
 			continue
@@ -287,29 +327,15 @@ func closureLabels(parent *ssa.Function) map[*ssa.Function][]string {
 				var ops [16]*ssa.Value
 				for _, op := range in.Operands(ops[:0]) {
 					if *op == ssa.Value(af) {
-						lab := ""
-						switch r := in.(type) {
-						case *ssa.Return:
-							lab = "return"
-						case *ssa.Store:
-							if a, ok := r.Addr.(*ssa.Alloc); ok {
-								lab = a.Comment
-							}
-						case *ssa.Go:
-							counts["go"]++
-							lab = fmt.Sprintf("go#%d", counts["go"])
-						case *ssa.Defer:
-							counts["defer"]++
-							lab = fmt.Sprintf("defer#%d", counts["defer"])
-						case *ssa.Call:
-							counts["arg"]++
-							lab = fmt.Sprintf("arg#%d", counts["arg"])
-						case *ssa.ChangeType:
-							lab = "return"
+						lab := labelDirect(af, in, 0)
+						if lab == "" {
+							continue
 						}
-						if lab != "" {
-							out[af] = append(out[af], lab)
+						if lab == "go" || lab == "defer" || lab == "arg" || strings.HasPrefix(lab, "field:") || lab == "conv" || lab == "iface" {
+							counts[lab]++
+							lab = fmt.Sprintf("%s#%d", lab, counts[lab])
 						}
+						out[af] = append(out[af], lab)
 					}
 				}
 			}
